@@ -215,7 +215,11 @@ func diffValidate(P *Program, cfgs []*RunCfg, n int, seed int64) (validated int,
 		if e != nil {
 			return 0, nil, e
 		}
-		dvs, e := vmRandomRuns(P, cfg, n, seed, dir)
+		nv := n
+		if cfg.DiffOnly {
+			nv = 4 * n // the corpus exists for this comparison: more vectors
+		}
+		dvs, e := vmRandomRuns(P, cfg, nv, seed, dir)
 		if e != nil {
 			return 0, nil, e
 		}
